@@ -800,15 +800,9 @@ func (e *Engine) enterBlock(st *State, fr *Frame) bool {
 			return true
 		}
 		fr.visits[fr.block.Index]++
-		// unroll freely while iterations add nothing to the path condition (trip count and branches
-		// decided concretely); once an iteration has forked, allow a few more and then cut
-		if fr.loopPC == nil {
-			fr.loopPC = map[int]int{}
-		}
-		if fr.visits[fr.block.Index] == 1 {
-			fr.loopPC[fr.block.Index] = len(st.pc)
-		}
-		symbolic := len(st.pc) > fr.loopPC[fr.block.Index]
+		// unroll while the loop's own exit tests are decided concretely (constant trip count, whatever
+		// the body branches on); once an exit test was symbolic, allow a few iterations and then cut
+		symbolic := fr.symExit != nil && fr.symExit[fr.block.Index]
 		if fr.visits[fr.block.Index] > unrollLimit || (symbolic && fr.visits[fr.block.Index] > 3 && e.Mode != ModeSpec) {
 			if e.Mode == ModeSpec {
 				engineErr("loop at %s in %s needs an invariant (unrolled %d times)", e.pos(firstPos(fr.block)), fr.fn, unrollLimit)
